@@ -1,6 +1,6 @@
 // C19: one translation unit per documented template configuration (selected by macros), each running the core guarantees
 // (exactly-once C01, construction C06, rebuild C13) with a counting kernel on seeded random inputs.
-//   DIMV 1..4 | REAL_T float/double | DATA_T | ORDERV 0 Morton, 1 periodic Morton, 2 Hilbert (3-D) | NRHS 2 or 0
+//   DIMV 1..4 | REAL_T float/double | DATA_T | ORDERV 0 Morton, 1 periodic Morton, 2 Hilbert (3-D) | NRHS 2 or 0 | NEXTRA 2 (default) or 0 data values beyond the coordinates
 //   AUTOBS 0 explicit block sizes, 1 automatic (-1) and TBFMM_BLOCK_SIZE | REBUILDV 0/1 | EXECV 0 sequential, 1 OpenMP (real libgomp), 2 target/source
 #include "hcommon.hpp"
 #include "spacial/tbfmortonspaceindex.hpp"
@@ -48,7 +48,10 @@ using Space = TbfMortonSpaceIndex<Dim, Conf, true>;
 using Space = TbfHilbertSpaceIndex<Dim, Conf, false>;
 #endif
 constexpr bool Per = (ORDERV == 1);
-constexpr long NbData = Dim + 2;
+#ifndef NEXTRA
+#define NEXTRA 2
+#endif
+constexpr long NbData = Dim + NEXTRA;      // NEXTRA = 0: fewer data values than result values per particle
 struct Acc { long cnt; long sum; };
 constexpr long BIGW = (1L << 40) + 1;      // weight of a particle index in the second result value: exceeds the mantissa of float
 
@@ -118,7 +121,7 @@ int main(int argc, char** argv){
         const long N = dense ? denseN : 1 + (long)(rng() % 14);
         auto gen = [&](long n){ PosVec p(n); for(long i = 0; i < n; ++i){ for(long d = 0; d < Dim; ++d){ long k = (long)(rng() % (unsigned long)side); if(i > 0 && rng() % 4 == 0) k = (long)std::floor((double(p[i-1][d]) - double(conf.getBoxCorner()[d])) / (double(w[d]) / side));
                     if(k >= side) k = side - 1; const double frac = (rng() % 3 == 0) ? 0.25 : (rng() % 2 ? 0.5 : 0.75); p[i][d] = Data(double(conf.getBoxCorner()[d]) + (double(k) + frac) * (double(w[d]) / side)); }
-                p[i][Dim] = Data(0.1 * double(i + 1)); p[i][Dim + 1] = Data(-1.0 / double(i + 3)); } return p; };
+                if constexpr(NEXTRA >= 1) p[i][Dim] = Data(0.1 * double(i + 1)); if constexpr(NEXTRA >= 2) p[i][Dim + 1] = Data(-1.0 / double(i + 3)); } return p; };
         PosVec pos = gen(N);
         if(dense){ std::array<long,Dim> a; for(long d = 0; d < Dim; ++d) a[d] = 2 * (long)(rng() % (unsigned long)((side - blockSide) / 2 + 1));
             for(long i = 0; i < N; ++i){ long r = i; for(long d = 0; d < Dim; ++d){ const long k = a[d] + r % blockSide; r /= blockSide; pos[i][d] = Data(double(conf.getBoxCorner()[d]) + (double(k) + 0.5) * (double(w[d]) / side)); } } }
